@@ -8,7 +8,7 @@ use std::{
 	ffi::{c_void, CStr, CString},
 	os::raw::{c_char, c_int},
 	path::PathBuf,
-	ptr::null_mut,
+	ptr::{null, null_mut},
 };
 
 use jrsonnet_evaluator::{
@@ -56,41 +56,51 @@ impl ImportResolver for CallbackImportResolver {
 			ResolvePath::Str(s) => CString::new(s.as_bytes()).unwrap(),
 			ResolvePath::Path(p) => unsafe { crate::unparse_path(p) },
 		};
-		let found_here: *mut c_char = null_mut();
-
-		let mut buf = null_mut();
-		let mut buf_len = 0;
-		let success = unsafe {
+		let mut found_here: *const c_char = null();
+		let mut buf: *mut c_char = null_mut();
+		let mut buf_len: usize = 0;
+		let status = unsafe {
 			(self.cb)(
 				self.ctx,
 				base.as_ptr(),
 				rel.as_ptr(),
-				&mut found_here.cast_const(),
+				&raw mut found_here,
 				&raw mut buf,
 				&raw mut buf_len,
 			)
 		};
-		let buf_slice: &[u8] = unsafe { std::slice::from_raw_parts(buf.cast(), buf_len) };
-		unsafe {
-			std::alloc::dealloc(
-				buf.cast(),
-				Layout::from_size_align(buf_len, 1).expect("layout is valid"),
-			);
+		// Copy the callback's buffer before handing it back to the allocator
+		let buf_intern = if buf.is_null() {
+			Vec::new()
+		} else {
+			let copy = unsafe { std::slice::from_raw_parts(buf.cast::<u8>(), buf_len) }.to_vec();
+			unsafe {
+				std::alloc::dealloc(
+					buf.cast(),
+					Layout::from_size_align(buf_len.max(1), 1).expect("layout is valid"),
+				);
+			};
+			copy
 		};
-		let buf_intern = buf_slice.to_vec();
 
-		assert!(success == 0 || success == 1);
-		if success == 0 {
-			let result = String::from_utf8(buf_intern).expect("error should be valid string");
+		// As documented in libjsonnet.h: 0 indicates success, 1 failure with the message in buf
+		assert!(status == 0 || status == 1);
+		if status == 1 {
+			let result = String::from_utf8_lossy(&buf_intern).into_owned();
 			bail!(ImportCallbackError(result));
+		}
+		if found_here.is_null() {
+			bail!(ImportCallbackError(
+				"import callback did not set found_here".to_owned()
+			));
 		}
 
 		let found_here_raw = unsafe { CStr::from_ptr(found_here) };
 		let found_here_buf = SourcePath::new(SourceFile::new(PathBuf::from(
-			found_here_raw.to_str().unwrap(),
+			found_here_raw.to_string_lossy().into_owned(),
 		)));
 		unsafe {
-			let _ = CString::from_raw(found_here);
+			let _ = CString::from_raw(found_here.cast_mut());
 		}
 
 		let mut out = self.out.borrow_mut();
